@@ -158,6 +158,28 @@ impl FactSet {
         let mut seen = BTreeSet::new();
         self.isa.retain(|e| seen.insert(*e));
     }
+    /// Names with leading / trailing blanks (only for scenarios without a text transport: the text
+    /// formats cannot carry them unambiguously)
+    pub fn pad_some_names(&mut self, r: &mut crate::prng::Prng) {
+        let pads = [" ", "  ", "\t", " \u{a0}"];
+        for t in &mut self.terms {
+            if r.chance(1, 6) {
+                t.name = match r.below(3) {
+                    0 => format!("{}{}", r.pick(&pads), t.name),
+                    1 => format!("{}{}", t.name, r.pick(&pads)),
+                    _ => format!("{}{}{}", r.pick(&pads), t.name, r.pick(&pads)),
+                };
+            }
+        }
+        for k in KINDS {
+            for rec in self.recs_mut(k) {
+                if r.chance(1, 8) {
+                    rec.name = format!(" {} ", rec.name);
+                }
+            }
+        }
+    }
+
     pub fn max_name_len(&self) -> usize {
         self.terms.iter().map(|t| t.name.len()).chain(self.genes.iter().map(|g| g.name.len())).max().unwrap_or(0)
     }
@@ -469,6 +491,12 @@ pub fn gen_facts(r: &mut Prng, cfg: &GenCfg) -> FactSet {
             parents[i].insert(pheno);
             top_cat.push(i);
             i += 1;
+        }
+    }
+    // a top-level term that is a child of HP:1 and of HP:118 at once
+    if cfg.std_roots && place == 0 && r.chance(1, 10) {
+        if let Some(&c) = top_cat.last() {
+            parents[c].insert(0);
         }
     }
     // a category that lies below another category / modifier root (redundant top-level link)
